@@ -221,6 +221,11 @@ func (mdb *metadataDatabase) handleRow(row *metric.StorageRow) {
 func (mdb *metadataDatabase) gc(gcTimestamp int64) {
 	activeMetricIDs := make(map[uint64]struct{})
 
+	// NOTE: scan metric stores under the lock of metric index store, a metric which is indexed after the scan
+	// (its store is always created before) is missing in the active metrics, rebuilding the index store drops it.
+	mdb.lock.Lock()
+	defer mdb.lock.Unlock()
+
 	// gc metric store
 	mdb.metricMetadatas.Range(func(key, value any) bool {
 		mStore := value.(mStoreINTF)
@@ -234,8 +239,6 @@ func (mdb *metadataDatabase) gc(gcTimestamp int64) {
 
 	active := len(activeMetricIDs)
 
-	mdb.lock.Lock()
-	defer mdb.lock.Unlock()
 	// gc metric store index
 	if active == 0 && !mdb.metricIndexStore.IsEmpty() {
 		mdb.metricIndexStore = imap.NewIntMap[uint64]()
